@@ -82,6 +82,18 @@ CACHE_PARTS = {
 }
 # cached_property members discovered at run time that the table below does not know: name -> attributes read
 EXTRA_CACHE_READS = {}
+_BASE_CACHE_PARTS = dict(CACHE_PARTS)
+_TABLES_FOR = [None]     # the Index the derived entries of CACHE_PARTS / EXTRA_CACHE_READS belong to (kept alive)
+
+
+def bind_tables(index):
+    """CACHE_PARTS / EXTRA_CACHE_READS hold entries derived from one tree (unknown cached_property members): reset them
+    when another Index is analysed in the same process, so that results never depend on what was analysed before."""
+    if _TABLES_FOR[0] is not index:
+        CACHE_PARTS.clear()
+        CACHE_PARTS.update(_BASE_CACHE_PARTS)
+        EXTRA_CACHE_READS.clear()
+        _TABLES_FOR[0] = index
 # the degree (power of the scale factor) of each scale-covariant cache
 CACHE_POWER = {("_equations", "d"): 1, ("_simplex_equations", "d"): 1, ("_volume", ""): 3, ("_area", ""): 2,
                ("_centroid", ""): 1}
